@@ -67,7 +67,7 @@ def r2(cx, rec):
     rec.need(bool(opens), 'no-open', E, None, 'extractor never opens a piece file')
     for bb in opens:
         e = E.expr_call(bb)
-        pc = [x for x in walk(e) if x[0] == 'call' and x[1].endswith('Metainfo::piece')]
+        pc = list({(x[1], x[3], show(x)): x for x in walk(e) if x[0] == 'call' and x[1].endswith('Metainfo::piece')}.values())
         okname = len(pc) == 1 and any(x[0] == 'str' and x[1] == '.piece' for x in walk(e)) and \
             any(x[0] == 'call' and x[1].endswith('hash_to_string') for x in walk(e))
         k = pc[0][2][1] if pc else None
